@@ -220,7 +220,7 @@ def numbers(s):
     return out
 
 
-def run_case(ctx, st, filt, shift, other_dialect, list_cmds, case, hooks=None, brk=None):
+def run_case(ctx, st, filt, shift, other_dialect, list_cmds, case, hooks=None, brk=None, prefix=None):
     lines = [e['line'] for e in st['entries']]
     times = [e['rec']['t_us'] for e in st['entries']]
     t0 = times[0]
@@ -237,6 +237,8 @@ def run_case(ctx, st, filt, shift, other_dialect, list_cmds, case, hooks=None, b
     # metamorphic: shift
     s2 = Session(filter_text=filt, stop_text=brk)
     lines2 = streams.shifted_lines(st, shift, other_dialect)
+    if prefix:
+        lines2 = [p + l for p, l in zip(prefix, lines2)]
     s2.feed([l + '\n' for l in lines2], hooks=hooks)
     a, b = skeleton(s), skeleton(s2)
     # listings issued on s only: compare the live phase
@@ -271,6 +273,17 @@ def run(ctx, spec):
             ctx.count('streams_crossing_the_clock_wrap')
         st = streams.build(rng, cands, k=k, n_each=tuple(spec['len']), tagged=(k > 1 or rng.random() < 0.3),
                            opts={'big_gaps': rng.choice([0.3, 0.6]) if not wrap else 0.02, 'equal_times': 0.1, 'thresh': rng.choice([0.1, 0.3]), 'backsteps': back, 'wrap': wrap}, t0=t0)
+        prefix = None
+        if rng.random() < 0.12:
+            # the log as a journal / a supervisor hands it on: every line behind that tool's own stamp (a bracketed number
+            # that is not the message's time)
+            kind = rng.choice(['journal', 'syslog', 'kmsg', 'tag'])
+            base = rng.randint(0, 10 ** 6)
+            prefix = [{'journal': '[%12.6f] host weston[812]: ' % (base + j * 0.013), 'syslog': 'Jan 01 12:00:%02d host app[12]: ' % (j % 60),
+                       'kmsg': '<6>[%5d.%03d] ' % (base % 10000 + j, j % 1000), 'tag': 'stderr| '}[kind] for j in range(len(st['entries']))]
+            for j, e in enumerate(st['entries']):
+                e['line'] = prefix[j] + e['line']
+            ctx.count('streams_with_a_prefix_on_every_line')
         for e in st['entries']:
             e['gt_text'] = re.sub(r'FLOAT', 'F', history.expected_text(e['rec'], e['side'], st['names'][e['ci']]))
         filt = pick_filter(rng, st)
@@ -286,7 +299,7 @@ def run(ctx, spec):
         # a breakpoint too: in file / pipe / run mode a hit prints a notice and the stream goes on
         brk = pick_filter(rng, st) if rng.random() < 0.45 else None
         case = {'lines': [x['line'] for x in st['entries']], 'filter': filt, 'breakpoint': brk, 'k': k, 'hooks': {str(a): b for a, b in hooks.items()}}
-        n = run_case(ctx, st, filt, shift, od, list_cmds, case, hooks, brk)
+        n = run_case(ctx, st, filt, shift, od, list_cmds, case, hooks, brk, prefix)
         ctx.count('mid_stream_listings', sum(len(v) for v in hooks.values()))
         ctx.ev(len(st['entries']))
         if n:
